@@ -156,6 +156,19 @@ static Outcome runCall(World& w, const Call& call, const std::string& site = "",
   if (!site.empty()) R.fpArm(site, k);
   o.rc    = call.fn(w);
   o.fired = R.fired > 0;
+  // Developer aid (never set by the driver): C19_SABOTAGE=<mode> imitates, after a REPORTED FAILURE, what a library
+  // mutant with a missing roll-back would leave behind, to check that the root-cause rules do not absorb it.
+  if (const char* sab = getenv("C19_SABOTAGE"))
+    if (o.rc != 0 && !call.exp.noRc)
+    {
+      std::string m = sab;
+      if (m == "dbout-extra" && w.out()) w.out()->addColumnsByConstant(1, 0., "K.z1.estim", ELoc::UNKNOWN);
+      if (m == "dbout-extra-z" && w.out()) w.out()->addColumnsByConstant(1, 0., "K.z1.estim", ELoc::Z, w.out()->getLocatorNumber(ELoc::Z));
+      if (m == "dbin-simu" && w.in()) w.in()->addColumnsByConstant(1, 0., "tmp", ELoc::SIMU, w.in()->getLocatorNumber(ELoc::SIMU));
+      if (m == "dbin-plain" && w.in()) w.in()->addColumnsByConstant(1, 0., "New", ELoc::UNKNOWN);
+      if (m == "dbin-value" && w.in()) w.in()->setValueByColIdx(0, 0, 12345.);
+      if (m == "dbout-clearz" && w.out()) w.out()->clearLocators(ELoc::Z);
+    }
   o.log   = R.fpLog;
   R.fpReset();
   OptDbg::reset();
@@ -305,8 +318,9 @@ static bool emitDiff(Ctx& c, const std::string& oracle, const std::string& calc,
     // D7: working SIMU columns are created at ranks 1.. : a pre-existing SIMU column loses its role for good
     if (famSimu(calc) && l.fromType == LS) { put(K_D7, std::string(which) + ": " + w); continue; }
     // D9: failure injected after _postprocess: the roles cleared by the naming convention are not restored
-    if (fail && kindIsFailpoint(kind, "calc.after_postprocess") && isOut && lost && e.flagLocator &&
-        (l.fromType == e.outLoc || std::find(e.alsoLose.begin(), e.alsoLose.end(), l.fromType) != e.alsoLose.end()))
+    // (lost, or shifted to another rank of the same type once the roll-back has deleted the new holder)
+    if (fail && kindIsFailpoint(kind, "calc.after_postprocess") && isOut && (lost || l.toType == l.fromType) &&
+        ((e.flagLocator && l.fromType == e.outLoc) || std::find(e.alsoLose.begin(), e.alsoLose.end(), l.fromType) != e.alsoLose.end()))
     { put(K_D9, w); continue; }
     // D12: DGM centring: the X roles moved to the temporary coordinates are not given back on failure
     if (fail && isIn && famDgm(calc) && l.fromType == LX) { put(K_D12, w); d12loc = true; continue; }
